@@ -62,6 +62,10 @@ def _contains(root, node):
     return any(n is node for n in ast.walk(root))
 
 
+def _within(node, root):
+    return any(x is node for x in ast.walk(root))
+
+
 def _inside_comprehension_body(node, fn_node):
     """Is `node` evaluated per element of an enclosing comprehension (in its
     element expression, a condition, or an inner generator) rather than
@@ -91,6 +95,26 @@ def analyse(repo, cons, fi, pname, deep=False):
     events = []        # (cfg node, label, ast node, once)
     frees = []         # cfg nodes after which the name is re-iterable/cursor
     cursor_groups = {}
+    # what each local alias of the parameter is: a cursor (iter(p)), a
+    # re-iterable copy (memorize / tuple / list ...), or just another name
+    alias_kind = {}
+    for st in model.walk_shallow(fi.node):
+        if isinstance(st, ast.Assign) and len(st.targets) == 1 and \
+                isinstance(st.targets[0], ast.Name) and isinstance(
+                st.value, ast.Call):
+            d = repo.resolve(fi.module, st.value.func,
+                             model.scope_locals(fi))
+            tg = repo.lookup(d) if d else None
+            key = tg.key if isinstance(tg, model.FuncInfo) else d
+            nm = st.targets[0].id
+            if d == 'builtins.iter':
+                alias_kind[nm] = ('cursor', st)
+            elif key in REITERABLE or d in REITERABLE or (
+                    d in REITERABLE_EAGER) or (
+                    isinstance(st.value.func, ast.Name) and
+                    st.value.func.id in ('to_list', 'to_set')):
+                alias_kind[nm] = ('reiterable', st)
+    reiterable_seen = set()
     for u in uses:
         stmt = model.enclosing(u.node, ast.stmt) if not isinstance(
             u.node, ast.stmt) else u.node
@@ -111,7 +135,18 @@ def analyse(repo, cons, fi, pname, deep=False):
             continue
         if u.mode == 'pass' and u.detail not in CONSUMING_DELEGATES:
             continue   # handed to a user lambda / scalar helper
-        if u.alias and u.via == 'builtins.iter':
+        re_alias = [a for a in ([u.alias] if u.alias else []) + list(
+            getattr(u, 'chain', ())) if a != pname and alias_kind.get(
+            a, (None,))[0] == 'reiterable']
+        if re_alias:
+            u.alias = re_alias[0]
+        if u.alias and u.alias != pname and \
+                alias_kind.get(u.alias, (None,))[0] == 'reiterable':
+            # uses of a re-iterable copy: the copy reads the parameter
+            # once, whatever is done with the copy afterwards
+            continue
+        if u.alias and (u.via == 'builtins.iter' or alias_kind.get(
+                u.alias, (None,))[0] == 'cursor'):
             # uses of an explicit cursor: one event, at the iter() call
             cursor_groups.setdefault(u.alias, (cn, u))
             continue
@@ -156,17 +191,37 @@ def analyse(repo, cons, fi, pname, deep=False):
         hit = []
         once_seen = set()
         free = False
+        prev = None
         for n in path:
             if not free:
                 for e in ev_by_node.get(n.id, ()):
+                    # the header of a `for` loop is visited once per
+                    # iteration, but the iterable is consumed once per
+                    # *entry* into the loop
+                    lp = n.ast if isinstance(n.ast, ast.For) else n.stmt
+                    if isinstance(lp, ast.For) and e[2] is not None and \
+                            _within(e[2], lp.iter) and prev is not None \
+                            and prev.stmt is not None and any(
+                                _within(prev.stmt, b) or prev.stmt is b
+                                for b in lp.body):
+                        continue
                     if e[3]:
                         if id(e[2]) in once_seen:
                             continue
                         once_seen.add(id(e[2]))
                     count += 1
                     hit.append(e)
+                    if isinstance(lp, ast.For) and _within(
+                            e[2], lp.iter) and n.loop_depth >= 1:
+                        # a loop that is itself inside a loop is entered
+                        # again on the next iteration of the outer one
+                        count += 1
+                        hit.append((e[0], e[1] + ' (re-entered on the next '
+                                    'iteration of the enclosing loop)',
+                                    e[2], e[3]))
             if n.id in free_ids:
                 free = True
+            prev = n
         if count >= 2 and (worst is None or count < worst[0]):
             worst = (count, hit, path)
             if count == 2:
